@@ -185,6 +185,9 @@ func runScenario(c *vlib.Ctx, sc *Scenario, idx int, deadline time.Time) string 
 	if c.Thorough() {
 		maxBound, envBound = sc.ThoroughBound, sc.ThoroughEnv
 	}
+	if v := os.Getenv("VERIF_BOUND"); v != "" { // debugging aid: explore one scenario deeper
+		fmt.Sscan(v, &maxBound)
+	}
 	completed := -1
 	var res []string
 	for b := 0; b <= maxBound; b++ {
